@@ -16,7 +16,8 @@ CONSTANTS Cfg,          \* configuration record (see EudoxiaOps)
           CpuChoices, RamChoices,   \* allocations the universal scheduler may request
           PoolChoices,  \* pool ids it may name (includes one out-of-range id)
           MaxTick, MaxAsg, MaxOps,
-          CollapseCrash \* TRUE: crash states collapse to one sink per reason (pure model checking)
+          CollapseCrash, \* TRUE: crash states collapse to one sink per reason (pure model checking)
+          Admissible     \* TRUE: the scheduler only issues batches the executor accepts (long behaviours for replay/simulation)
 
 VARIABLES s, tick, phase, sus, asg
 vars == <<s, tick, phase, sus, asg>>
@@ -61,6 +62,7 @@ C10_ElseRejectedStep(pre, post) ==
 Round == /\ phase = "S" /\ s.crash = "" /\ tick < MaxTick
          /\ \E sb \in SusBatches(s), ab \in AsgBatches :
               LET full == MkAssignments(WL, s, ab) IN
+              /\ (Admissible => full.crash = "" /\ ExecTick(Cfg, WL, full, sb, ab).crash = "")
               /\ Assert(C02_NoReuseStep(ab, full), "C02_NoReuseOfCompleted")
               /\ s' = Collapse(full)
               /\ sus' = IF full.crash = "" THEN sb ELSE <<>>
